@@ -31,7 +31,7 @@ struct Base {
 fn base_of(src: &str, lib: bool) -> Option<Base> {
     let (t, _) = api::parse_simple(src, lib, false).ok()?.ok()?;
     let ix = tree::index(&t).ok()?;
-    let text = t.get_str(vec![ix.nodes[0].node.clone()]).unwrap_or("").to_string();
+    let text = tree::text_from_leaves(&t, &ix)?;
     // the source must be a fixed point of the preprocessor so that offsets in the text are
     // offsets in the file
     match api::pp_str(&text, Path::new("top.sv"), &Defs::new(), &[], false, false) {
